@@ -5,6 +5,7 @@ package xds
 
 import (
 	"fmt"
+	"net/url"
 	"regexp"
 	"sort"
 	"strings"
@@ -1150,7 +1151,9 @@ func makeSpiffePattern(src rbacService) string {
 	if svc == structs.WildcardSpecifier {
 		svc = anyPath
 	} else {
-		svc = regexp.QuoteMeta(svc)
+		// The URI SAN of a certificate carries the name in its RFC 3986 escaped form
+		// (e.g. "a|b" is "a%7Cb"), so that is what the principal has to match.
+		svc = regexp.QuoteMeta((&url.URL{Path: svc}).EscapedPath())
 	}
 
 	// If service is imported from a peer, the SpiffeID must
